@@ -27,6 +27,7 @@
 //   * monotonicity for negative gain; exact values for gain/offset other than 100/0 (range only)
 #include <cmath>
 #include <deque>
+#include <algorithm>
 #include <functional>
 #include <new>
 #include <rtosc/ports.h>
@@ -60,11 +61,12 @@ static const float SWEEP[7] = {-0.5f, 0.f, 0.25f, 0.5f, 0.75f, 1.f, 1.5f};
 struct Cfg { int S, P; unsigned char fill; int dq, dt; };   // depth after the configuration op: quick, thorough
 static const Cfg CFG[] = {
     {2, 1, 0xFF, 6, 40}, {2, 1, 0x00, 5, 8}, {2, 2, 0xFF, 5, 6}, {2, 2, 0x00, 0, 5}, {3, 1, 0xFF, 5, 6}, {3, 1, 0x00, 0, 5},
-    {3, 2, 0xFF, 0, 5}, {3, 2, 0x00, 0, 4}, {4, 1, 0xFF, 0, 5}, {4, 1, 0x00, 0, 4}};
-enum { NCFG = sizeof(CFG) / sizeof(CFG[0]), MS = 4, MP = 2 };
+    {3, 2, 0xFF, 0, 5}, {3, 2, 0x00, 0, 4}, {4, 1, 0xFF, 0, 5}, {4, 1, 0x00, 0, 4},
+    {2, 3, 0xFF, 0, 4}, {3, 3, 0x00, 0, 3}, {5, 1, 0xFF, 0, 4}, {6, 1, 0x00, 0, 4}, {6, 3, 0xFF, 0, 3}};
+enum { NCFG = sizeof(CFG) / sizeof(CFG[0]), MS = 6, MP = 3 };
 static int g_only_cfg = -1;   // engine run restricted to one configuration (-1: all of the tier)
 
-enum { OP_CFG = 0, OP_CREATE = 100, OP_CLEAR = 140, OP_CLRSUB = 150, OP_GAIN = 160, OP_OFFS = 190, OP_MIDI = 210, OP_NRPN = 220, OP_SWEEP = 230, OP_END = 234 };
+enum { OP_CFG = 0, OP_CREATE = 100, OP_CLEAR = 150, OP_CLRSUB = 160, OP_GAIN = 180, OP_OFFS = 240, OP_MIDI = 280, OP_NRPN = 290, OP_SWEEP = 300, OP_END = 306 };   // sized for MS slots x MP subs
 
 struct Emit { bool ok; std::string addr, types; uint32_t u32; };
 
@@ -114,9 +116,9 @@ struct Sys {
         if(op < OP_CREATE) { const Cfg &c = CFG[op]; snprintf(b, sizeof b, "mgr(slots=%d,per_slot=%d,fill=%02x)", c.S, c.P, c.fill); }
         else if(op < OP_CLEAR) { int k = op - OP_CREATE; snprintf(b, sizeof b, "createBinding(%d,%s,%s)", k / 8, PORT[(k / 2) % 4].path, k % 2 ? "learn" : "nolearn"); }
         else if(op < OP_CLRSUB) snprintf(b, sizeof b, "clearSlot(%d)", op - OP_CLEAR);
-        else if(op < OP_GAIN) snprintf(b, sizeof b, "clearSlotSub(%d,%d)", (op - OP_CLRSUB) / 2, (op - OP_CLRSUB) % 2);
-        else if(op < OP_OFFS) { int k = op - OP_GAIN; snprintf(b, sizeof b, "gain(%d,%d,%g)", k / 6, (k / 3) % 2, GAIN[k % 3]); }
-        else if(op < OP_MIDI) { int k = op - OP_OFFS; snprintf(b, sizeof b, "offset(%d,%d,%g)", k / 4, (k / 2) % 2, OFFS[k % 2]); }
+        else if(op < OP_GAIN) snprintf(b, sizeof b, "clearSlotSub(%d,%d)", (op - OP_CLRSUB) / MP, (op - OP_CLRSUB) % MP);
+        else if(op < OP_OFFS) { int k = op - OP_GAIN; snprintf(b, sizeof b, "gain(%d,%d,%g)", k / (3 * MP), (k / 3) % MP, GAIN[k % 3]); }
+        else if(op < OP_MIDI) { int k = op - OP_OFFS; snprintf(b, sizeof b, "offset(%d,%d,%g)", k / (2 * MP), (k / 2) % MP, OFFS[k % 2]); }
         else if(op < OP_NRPN) { int k = op - OP_MIDI; snprintf(b, sizeof b, "cc(%d,%d)", CCID[k / 3], CCVAL[k % 3]); }
         else if(op < OP_SWEEP) { int k = op - OP_NRPN; snprintf(b, sizeof b, "nrpn(%d:%d,%d:%d)", NRPN_ID[k / 3][0], NRPN_ID[k / 3][1], NRPN_VAL[k % 3][0], NRPN_VAL[k % 3][1]); }
         else snprintf(b, sizeof b, "sweep(%d)", op - OP_SWEEP);
@@ -135,10 +137,10 @@ struct Sys {
         }
         for(int s = 0; s < I.S; ++s) for(int k = 0; k < 8; ++k) out.push_back(OP_CREATE + s * 8 + k);
         for(int s = 0; s < I.S; ++s) out.push_back(OP_CLEAR + s);
-        for(int s = 0; s < I.S; ++s) for(int i = 0; i < I.P; ++i) out.push_back(OP_CLRSUB + s * 2 + i);
+        for(int s = 0; s < I.S; ++s) for(int i = 0; i < I.P; ++i) out.push_back(OP_CLRSUB + s * MP + i);
         // gain / offset of a sub-automation that is not bound: the statement says nothing about it -> not in the alphabet
-        for(int s = 0; s < I.S; ++s) for(int i = 0; i < I.P; ++i) if(I.sub[s][i].used) for(int g = 0; g < 3; ++g) out.push_back(OP_GAIN + (s * 2 + i) * 3 + g);
-        for(int s = 0; s < I.S; ++s) for(int i = 0; i < I.P; ++i) if(I.sub[s][i].used) for(int o = 0; o < 2; ++o) out.push_back(OP_OFFS + (s * 2 + i) * 2 + o);
+        for(int s = 0; s < I.S; ++s) for(int i = 0; i < I.P; ++i) if(I.sub[s][i].used) for(int g = 0; g < 3; ++g) out.push_back(OP_GAIN + (s * MP + i) * 3 + g);
+        for(int s = 0; s < I.S; ++s) for(int i = 0; i < I.P; ++i) if(I.sub[s][i].used) for(int o = 0; o < 2; ++o) out.push_back(OP_OFFS + (s * MP + i) * 2 + o);
         for(int k = 0; k < 9; ++k) out.push_back(OP_MIDI + k);
         for(int k = 0; k < 6; ++k) out.push_back(OP_NRPN + k);
         for(int s = 0; s < I.S; ++s) out.push_back(OP_SWEEP + s);
@@ -403,7 +405,7 @@ struct Sys {
             return;
         }
         if(op < OP_GAIN) {
-            int s = (op - OP_CLRSUB) / 2, i = (op - OP_CLRSUB) % 2;
+            int s = (op - OP_CLRSUB) / MP, i = (op - OP_CLRSUB) % MP;
             if(s >= I.S || i >= I.P) return;
             m.clearSlotSub(s, i);
             I.sub[s][i] = MSub();
@@ -414,7 +416,7 @@ struct Sys {
         if(op < OP_MIDI) {
             bool is_gain = op < OP_OFFS;
             int k = is_gain ? op - OP_GAIN : op - OP_OFFS, per = is_gain ? 3 : 2;
-            int s = k / (2 * per), i = (k / per) % 2, v = k % per;
+            int s = k / (MP * per), i = (k / per) % MP, v = k % per;
             if(s >= I.S || i >= I.P) return;
             if(is_gain) { m.setSlotSubGain(s, i, GAIN[v]); I.sub[s][i].gain = v; }
             else { m.setSlotSubOffset(s, i, OFFS[v]); I.sub[s][i].off = v; }
@@ -595,7 +597,11 @@ int main(int argc, char **argv)
     if(vp::replaying()) { bfs::Engine<Sys> E; E.run(); return vp::finish(); }
     const std::string out0 = vp::ctx().out;
     const std::string stem = out0.size() > 5 ? out0.substr(0, out0.size() - 5) : std::string("C19");
-    for(int c = 0; c < NCFG; ++c) {
+    // order: the configurations with a small depth first, the (2,1) manager that is run to its fixpoint in the thorough tier last,
+    // so that a deadline cuts the deepest exploration and not the breadth over configurations
+    std::vector<int> order; for(int c = 1; c < NCFG; ++c) order.push_back(c); order.push_back(0);
+    std::stable_sort(order.begin(), order.end(), [&](int a, int b) { return (T ? CFG[a].dt : CFG[a].dq) < (T ? CFG[b].dt : CFG[b].dq); });
+    for(int c : order) {
         int d = T ? CFG[c].dt : CFG[c].dq;
         if(d == 0) continue;
         if(const char *only = getenv("C19_ONLY_CFG")) { if(atoi(only) != c) continue; vp::cap("development filter C19_ONLY_CFG set: other configurations skipped"); }
